@@ -1,5 +1,7 @@
 from ..binary import Binary
 
+VALID_HEX = b"0123456789abcdefABCDEF"
+
 
 def parse_hex_string(buffer):
     """Generator: hex string to bytes."""
@@ -25,7 +27,11 @@ def parse_hex_string(buffer):
         except StopIteration:
             raise ValueError("Invalid hex string: uneven amount of digits.")
 
-        # parse
+        # parse (int() would also accept signs, underscores and whitespace)
+        if high_nibble not in VALID_HEX or low_nibble not in VALID_HEX:
+            raise ValueError(
+                f"Invalid hex string: invalid digits {high_nibble + low_nibble}."
+            )
         yield int(high_nibble + low_nibble, 16)
 
         high_nibble = b""
